@@ -1,7 +1,7 @@
 """C03 — counterparty commitments advance only over properly revoked predecessors."""
 import lib
-import gen_rustfn
 from props import chan_common
+from props.chan_common import TIE
 
 MANIFEST = dict(
     text="Coq theorems over every request history (both build profiles): C03_sign_needs_revocations (a counterparty signature "
@@ -12,7 +12,11 @@ MANIFEST = dict(
          "whole BOLT-3 tree fed in order is accepted and retrievable in <= 49 entries).  C03_commit_update_is_source / "
          "C03_revoke_update_is_source: the model's two counterparty-side state updates ARE the source's - "
          "EnforcementState::set_next_counterparty_commit_num / _revoke_num are translated on every run by tools/gen_rustfn.py "
-         "(Gen/EnforcementGen.v) and proved equal to set_cp_commit / set_cp_revoke in both build profiles.  Correspondence and monitor on the chan "
+         "(Gen/EnforcementGen.v) and proved equal to set_cp_commit / set_cp_revoke in both build profiles." + TIE +
+         "C03_sign_window_is_source (after the content verdict: the window test next_counterparty_revoke_num + 1 < n, the "
+         "overflow of n+1, then validate_cp_state - on a retry the same point and the same content; side condition "
+         "next_counterparty_revoke_num < 2^64-1) and C03_revocation_checks_are_source (revocation_checks with the overflow "
+         "handling of do_revocation; the point of the secret is an uninterpreted function of the secret).  Correspondence and monitor on the chan "
          "domain as for C01 (the store itself is additionally driven against Model/Secrets.v by the C18 check).",
     design="§4 C03",
     note=lib.TB + "Additionally trusted: tools/gen_rustfn.py and the meaning Base/Rust.v gives to the Rust constructs it reads.  Points and secrets are identities in the state-machine model; 'secret s has public point p' and the store's chain "
@@ -23,23 +27,13 @@ MANIFEST = dict(
 
 
 def run(res):
-    # the translator regenerates Gen/EnforcementGen.v from /repo's validator.rs under the build lock, right before the
-    # theorems that relate it to the model's state updates are re-checked
-    report = {}
-
-    def regen():
-        report.update(gen_rustfn.generate_enforcement(lib.REPO))
-    try:
-        chan_common.run(res, "C03.v", ["C03_sign_needs_revocations", "C03_at_most_two_unrevoked",
-                                       "C03_revocation_matches_signed_point", "C03_resign_same",
-                                       "C03_store_accepts_only_consistent", "C03_store_keeps_the_tree",
-                                       "C03_commit_update_is_source", "C03_revoke_update_is_source",
-                                       "C03_previous_point_lookup_is_source", "C03_previous_info_lookup_is_source",
-                                       "C03_nonvacuous"],
-                        "C03", pre=regen)
-    except gen_rustfn.GenError as e:
-        res.violation("the translator cannot read EnforcementState::set_next_counterparty_commit_num / _revoke_num (a "
-                      "construct outside its fragment): %s" % e,
-                      {"translator": "tools/gen_rustfn.py", "source": "vls-core/src/policy/validator.rs", "error": str(e),
-                       "theorem": "C03_commit_update_is_source"}, has_input=False)
-    res.coverage["translated_from_source"] = report
+    # the translator regenerates Gen/EnforcementGen.v and Gen/EnforcementRulesGen.v from /repo under the build lock, right
+    # before the theorems that relate them to the model's state updates and decisions are re-checked
+    chan_common.run_tied(res, "C03.v", ["C03_sign_needs_revocations", "C03_at_most_two_unrevoked",
+                                        "C03_revocation_matches_signed_point", "C03_resign_same",
+                                        "C03_store_accepts_only_consistent", "C03_store_keeps_the_tree",
+                                        "C03_commit_update_is_source", "C03_revoke_update_is_source",
+                                        "C03_previous_point_lookup_is_source", "C03_previous_info_lookup_is_source",
+                                        "C03_sign_window_is_source", "C03_revocation_checks_are_source",
+                                        "C03_nonvacuous"],
+                         "C03", "C03_commit_update_is_source")
